@@ -8,7 +8,18 @@
 //!    `Module::get_function` fills with `self.inner.clone()`;
 //!  * `codegen` clones every registered constant (`declare_constant`) and the
 //!    `Arc` of every referenced registered function into the module;
-//!  * which `Drop` impls call `free_memory`.
+//!  * which `Drop` impls call `free_memory`;
+//!  * what the closure returned by `TypedFunc::into_func` captures (the body
+//!    lives inside `macro_rules! call_impl`, so it is analysed on the token
+//!    level: a use of `self` as a whole — `self.call(…)` — captures the whole
+//!    handle; only `self.<field>` uses capture just those fields under the
+//!    disjoint-capture rule of edition ≥ 2021, and the other fields are dropped
+//!    when `into_func` returns);
+//!  * every address the code generator bakes into the machine code
+//!    (`iconst(ty, <ptr> as usize as i64)` …) and every data object it defines
+//!    in the JIT module, with the struct that owns the pointee after
+//!    `ModuleBuilder::finalize` (JIT module / `ModuleData` / `Module<Ctx>` =
+//!    the package / nobody).
 //! Shapes that are not recognised are extraction failures, never defaults.
 #[allow(unused_imports)]
 use super::{Gen, Target};
@@ -99,6 +110,411 @@ fn derives(file: &syn::File, name: &str, what: &str) -> bool {
     let mut f = F(name, what, false);
     f.visit_file(file);
     f.2
+}
+
+// ---------------------------------------------------------------- into_func capture
+
+use proc_macro2::{Delimiter, TokenStream, TokenTree};
+
+/// all brace bodies of `fn <name>(self) … { … }` inside a token stream (any depth)
+fn macro_fn_bodies(ts: TokenStream, name: &str, out: &mut Vec<(String, TokenStream)>) {
+    let toks: Vec<TokenTree> = ts.into_iter().collect();
+    let mut i = 0;
+    while i < toks.len() {
+        if let TokenTree::Ident(id) = &toks[i] {
+            if id == "fn" {
+                if let Some(TokenTree::Ident(n)) = toks.get(i + 1) {
+                    if n == name {
+                        let params = match toks.get(i + 2) {
+                            Some(TokenTree::Group(g)) if g.delimiter() == Delimiter::Parenthesis => {
+                                g.stream().to_string().replace(' ', "")
+                            }
+                            _ => String::from("?"),
+                        };
+                        let mut j = i + 3;
+                        while j < toks.len() {
+                            if let TokenTree::Group(g) = &toks[j] {
+                                if g.delimiter() == Delimiter::Brace {
+                                    out.push((params.clone(), g.stream()));
+                                    break;
+                                }
+                            }
+                            j += 1;
+                        }
+                        i = j;
+                    }
+                }
+            }
+        }
+        if let Some(TokenTree::Group(g)) = toks.get(i) {
+            macro_fn_bodies(g.stream(), name, out);
+        }
+        i += 1;
+    }
+}
+
+/// uses of `self` in a closure body: `None` = `self` used as a whole somewhere,
+/// `Some(fields)` = only these fields are mentioned (`self.f` not followed by a call)
+fn self_uses(ts: TokenStream, whole: &mut bool, fields: &mut Vec<String>) {
+    let toks: Vec<TokenTree> = ts.into_iter().collect();
+    for i in 0..toks.len() {
+        match &toks[i] {
+            TokenTree::Group(g) => self_uses(g.stream(), whole, fields),
+            TokenTree::Ident(id) if id == "self" => {
+                let dot = matches!(toks.get(i + 1), Some(TokenTree::Punct(p)) if p.as_char() == '.');
+                let field = match toks.get(i + 2) {
+                    Some(TokenTree::Ident(f)) if dot => Some(f.to_string()),
+                    Some(TokenTree::Literal(l)) if dot => Some(l.to_string()),
+                    _ => None,
+                };
+                let is_call = match toks.get(i + 3) {
+                    Some(TokenTree::Group(g)) => g.delimiter() == Delimiter::Parenthesis,
+                    Some(TokenTree::Punct(p)) => p.as_char() == ':',
+                    _ => false,
+                };
+                match field {
+                    Some(f) if !is_call => {
+                        if !fields.contains(&f) {
+                            fields.push(f)
+                        }
+                    }
+                    _ => *whole = true,
+                }
+            }
+            _ => {}
+        }
+    }
+}
+
+/// Does the closure returned by every `into_func` own the handle's `SharedModuleData`?
+fn into_func_keeps_arc(
+    repo: &Path,
+    cg: &syn::File,
+    arc_field: Option<&str>,
+    handle_has_drop: bool,
+    notes: &mut Vec<String>,
+) -> Result<bool, String> {
+    // edition: disjoint closure captures exist from 2021 on
+    let cargo = std::fs::read_to_string(repo.join("Cargo.toml")).map_err(|e| format!("Cargo.toml: {e}"))?;
+    let edition: u32 = cargo
+        .lines()
+        .filter_map(|l| {
+            let l = l.trim();
+            let rest = l.strip_prefix("edition")?.trim_start().strip_prefix('=')?.trim();
+            rest.trim_matches('"').parse().ok()
+        })
+        .next()
+        .ok_or("Cargo.toml: no `edition = \"…\"`")?;
+    let mut bodies = vec![];
+    for item in &cg.items {
+        match item {
+            syn::Item::Macro(m) if m.ident.as_ref().map(|i| i == "call_impl").unwrap_or(false) => {
+                macro_fn_bodies(m.mac.tokens.clone(), "into_func", &mut bodies);
+            }
+            _ => {}
+        }
+    }
+    // an `into_func` written outside the macro
+    let mut all = ImplFns { cur: None, out: vec![] };
+    all.visit_file(cg);
+    for (imp, name, block) in &all.out {
+        if name == "into_func" && imp.starts_with("TypedFunc") {
+            let inner: TokenStream = block.stmts.iter().map(|s| s.to_token_stream()).collect();
+            bodies.push(("self".into(), inner));
+        }
+    }
+    if bodies.is_empty() {
+        return Err("no `fn into_func` found (neither in `macro_rules! call_impl` nor in an impl of TypedFunc)".into());
+    }
+    let mut keeps_all = true;
+    for (params, body) in bodies {
+        if params != "self" {
+            return Err(format!("into_func takes `{params}`, not `self`: conversion of a handle is not modelled"));
+        }
+        let toks: Vec<TokenTree> = body.into_iter().collect();
+        // the body must be one closure expression: [move] |params| body
+        let is_move = matches!(toks.first(), Some(TokenTree::Ident(i)) if i == "move");
+        let bars: Vec<usize> = toks
+            .iter()
+            .enumerate()
+            .filter(|(_, t)| matches!(t, TokenTree::Punct(p) if p.as_char() == '|'))
+            .map(|(i, _)| i)
+            .collect();
+        if !is_move || bars.len() < 2 || bars[0] != 1 {
+            return Err("into_func is not `move |args| <body>`: what the returned object owns is not modelled".into());
+        }
+        let rest: TokenStream = toks[bars[1] + 1..].iter().cloned().collect();
+        let (mut whole, mut fields) = (false, vec![]);
+        self_uses(rest, &mut whole, &mut fields);
+        let captures_whole = whole || edition < 2021 || handle_has_drop;
+        let keeps = captures_whole || arc_field.map(|f| fields.iter().any(|x| x == f)).unwrap_or(false);
+        notes.push(format!(
+            "into_func closure (edition {edition}): {} ↦ {}",
+            if captures_whole { "captures the whole handle".to_string() } else { format!("captures only self.{{{}}}", fields.join(",")) },
+            if keeps { "owns the Arc<ModuleData>" } else { "the SharedModuleData field is dropped when into_func returns" }
+        ));
+        keeps_all &= keeps;
+    }
+    Ok(keeps_all)
+}
+
+// ---------------------------------------------------------------- addresses baked into the code
+
+/// `self.module.<f>` (in FuncGen) / `self.<f>` (in ModuleBuilder) mentions and
+/// `self.module.<m>(…)` calls inside an expression
+struct Mentions<'a> {
+    base: &'a str,
+    fields: Vec<String>,
+    methods: Vec<String>,
+    idents: Vec<String>,
+}
+impl<'ast> Visit<'ast> for Mentions<'_> {
+    fn visit_expr_field(&mut self, f: &'ast syn::ExprField) {
+        if norm(&f.base) == self.base {
+            let m = norm(&f.member);
+            if !self.fields.contains(&m) {
+                self.fields.push(m);
+            }
+        }
+        syn::visit::visit_expr_field(self, f);
+    }
+    fn visit_expr_method_call(&mut self, m: &'ast syn::ExprMethodCall) {
+        if norm(&m.receiver) == self.base {
+            self.methods.push(m.method.to_string());
+        }
+        syn::visit::visit_expr_method_call(self, m);
+    }
+    fn visit_expr_path(&mut self, p: &'ast syn::ExprPath) {
+        if let Some(i) = p.path.get_ident() {
+            self.idents.push(i.to_string());
+        }
+    }
+}
+
+struct PatIdents(Vec<String>);
+impl<'ast> Visit<'ast> for PatIdents {
+    fn visit_pat_ident(&mut self, p: &'ast syn::PatIdent) {
+        self.0.push(p.ident.to_string());
+        syn::visit::visit_pat_ident(self, p);
+    }
+    fn visit_field_pat(&mut self, f: &'ast syn::FieldPat) {
+        // shorthand `Variant { to, name }`
+        syn::visit::visit_field_pat(self, f);
+    }
+}
+
+struct Locals(Vec<(Vec<String>, syn::Expr)>);
+impl<'ast> Visit<'ast> for Locals {
+    fn visit_local(&mut self, l: &'ast syn::Local) {
+        if let Some(init) = &l.init {
+            let mut p = PatIdents(vec![]);
+            p.visit_pat(&l.pat);
+            self.0.push((p.0, (*init.expr).clone()));
+        }
+        syn::visit::visit_local(self, l);
+    }
+}
+
+/// value arguments of `iconst(ty, v)` whose text shows a host address
+struct BakedConsts(Vec<syn::Expr>);
+impl<'ast> Visit<'ast> for BakedConsts {
+    fn visit_expr_method_call(&mut self, m: &'ast syn::ExprMethodCall) {
+        if m.method == "iconst" && m.args.len() == 2 {
+            let v = &m.args[1];
+            let t = norm(v);
+            if ["asusize", ".addr()", "as*const", "as*mut", ".as_ptr()", ".ptr()", ".as_mut_ptr()"].iter().any(|x| t.contains(x)) {
+                self.0.push(v.clone());
+            }
+        }
+        syn::visit::visit_expr_method_call(self, m);
+    }
+}
+
+struct Arms(Vec<syn::Arm>);
+impl<'ast> Visit<'ast> for Arms {
+    fn visit_arm(&mut self, a: &'ast syn::Arm) {
+        if let syn::Pat::Struct(_) | syn::Pat::TupleStruct(_) | syn::Pat::Path(_) = &a.pat {
+            if norm(&a.pat).contains("Instruction::") {
+                self.0.push(a.clone());
+                return; // nested matches belong to this arm
+            }
+        }
+        syn::visit::visit_arm(self, a);
+    }
+}
+
+/// Every kind of out-of-line data the emitted code refers to by address → its holder
+fn data_holders(cg: &syn::File, all: &ImplFns, notes: &mut Vec<String>) -> Result<Vec<&'static str>, String> {
+    let builder_fields = find::struct_fields(cg, "ModuleBuilder")?;
+    let finalize = all
+        .out
+        .iter()
+        .find(|(i, n, _)| n == "finalize" && i == "ModuleBuilder")
+        .ok_or("ModuleBuilder::finalize not found")?;
+    let mut lit = StructLit("Module", vec![]);
+    lit.visit_block(&finalize.2);
+    if lit.1.len() != 1 {
+        return Err(format!("ModuleBuilder::finalize: {} `Module {{…}}` literals", lit.1.len()));
+    }
+    // where does a builder field end up
+    let route = |f: &str| -> Result<&'static str, String> {
+        let want = format!("self.{f}");
+        for fv in &lit.1[0].fields {
+            let e = norm(&fv.expr);
+            if e == want {
+                return Ok("package");
+            }
+            if let syn::Expr::Call(c) = &fv.expr {
+                if norm(&c.func) == "SharedModuleData::new" {
+                    for (i, a) in c.args.iter().enumerate() {
+                        if norm(a) == want {
+                            return Ok(if i == 0 { "jit" } else { "moduleData" });
+                        }
+                    }
+                    continue;
+                }
+            }
+            if e.contains(&want) {
+                return Err(format!("ModuleBuilder::finalize uses `{want}` inside `{e}`: where the data ends up is not modelled"));
+            }
+        }
+        Ok("builder")
+    };
+    let codegen_txt = all
+        .out
+        .iter()
+        .find(|(i, n, _)| i.is_empty() && n == "codegen")
+        .map(|(_, _, b)| norm(b))
+        .unwrap_or_default();
+    let holder_of = |f: &str| -> Result<&'static str, String> {
+        let Some((_, ty)) = builder_fields.iter().find(|(n, _)| n == f) else {
+            return Err(format!("`{f}` is not a field of ModuleBuilder"));
+        };
+        if ty.contains("*const") || ty.contains("*mut") {
+            // a table of raw pointers: who owns the pointees?
+            if f == "runtime_functions"
+                && codegen_txt.contains("letptr=&rawconst**arc_boxas*constu8;")
+                && codegen_txt.contains("module.registered_fns.push(arc_box);")
+                && codegen_txt.contains("module.runtime_functions.insert(*func_ref,(ptr,func_id));")
+            {
+                return route("registered_fns");
+            }
+            return Err(format!("ModuleBuilder.{f} : {ty} holds raw pointers whose owner is not recognised"));
+        }
+        route(f)
+    };
+    let builder_method_fields = |m: &str| -> Option<Vec<String>> {
+        let hit = all.out.iter().find(|(i, n, _)| n == m && i == "ModuleBuilder")?;
+        let mut me = Mentions { base: "self", fields: vec![], methods: vec![], idents: vec![] };
+        me.visit_block(&hit.2);
+        Some(me.fields)
+    };
+
+    let mut out: Vec<&'static str> = vec![];
+    let mut n_sites = 0;
+    for (imp, name, block) in &all.out {
+        if !imp.starts_with("FuncGen") {
+            continue;
+        }
+        let mut arms = Arms(vec![]);
+        arms.visit_block(block);
+        // scopes: each instruction arm; and the function as a whole for what is outside arms
+        let mut scopes: Vec<(String, Vec<String>, syn::Expr)> = arms
+            .0
+            .iter()
+            .map(|a| {
+                let mut p = PatIdents(vec![]);
+                p.visit_pat(&a.pat);
+                // shorthand field patterns bind their member names
+                if let syn::Pat::Struct(ps) = &a.pat {
+                    for f in &ps.fields {
+                        p.0.push(norm(&f.member));
+                    }
+                }
+                let head = norm(&a.pat).split('{').next().unwrap_or("").split('(').next().unwrap_or("").to_string();
+                (format!("{name}/{head}"), p.0, (*a.body).clone())
+            })
+            .collect();
+        if arms.0.is_empty() {
+            scopes.push((name.clone(), vec![], syn::Expr::Block(syn::ExprBlock { attrs: vec![], label: None, block: block.clone() })));
+        }
+        for (label, bound, body) in &scopes {
+            // data objects defined in the JIT module
+            let txt = norm(body);
+            if txt.contains(".declare_anonymous_data(") || txt.contains(".declare_data(") {
+                if !(txt.contains(".define_data(") && txt.contains(".declare_data_in_func(") && txt.contains(".global_value(")) {
+                    return Err(format!("{label}: a data object is declared but not defined/used through a global value"));
+                }
+                notes.push(format!("{label}: data object defined in the JIT module ↦ Holder.jit"));
+                out.push("jit");
+                n_sites += 1;
+            }
+            let mut baked = BakedConsts(vec![]);
+            baked.visit_expr(body);
+            let mut locals = Locals(vec![]);
+            locals.visit_expr(body);
+            for v in baked.0 {
+                n_sites += 1;
+                // provenance: follow locals (≤ 4 levels) to builder fields
+                let mut fields: Vec<String> = vec![];
+                let mut from_ir = false;
+                // the locals visible at the site: those bound before the statement that contains it
+                let vt = norm(&v);
+                let site = locals
+                    .0
+                    .iter()
+                    .position(|(_, init)| norm(init).contains(&vt))
+                    .unwrap_or(locals.0.len());
+                let mut work = vec![(v.clone(), site)];
+                while let Some((e, limit)) = work.pop() {
+                    let mut me = Mentions { base: "self.module", fields: vec![], methods: vec![], idents: vec![] };
+                    me.visit_expr(&e);
+                    for f in me.fields {
+                        if !fields.contains(&f) {
+                            fields.push(f);
+                        }
+                    }
+                    for m in me.methods {
+                        match builder_method_fields(&m) {
+                            Some(fs) => {
+                                for f in fs {
+                                    if !fields.contains(&f) {
+                                        fields.push(f);
+                                    }
+                                }
+                            }
+                            None => return Err(format!("{label}: address computed by unknown method `self.module.{m}`")),
+                        }
+                    }
+                    for id in me.idents {
+                        if let Some(j) = locals.0[..limit].iter().rposition(|(ids, _)| ids.contains(&id)) {
+                            work.push((locals.0[j].1.clone(), j));
+                        } else if bound.contains(&id) {
+                            from_ir = true;
+                        }
+                    }
+                }
+                // fields that only describe the target, not data
+                fields.retain(|f| f != "isa");
+                if fields.is_empty() {
+                    if from_ir {
+                        notes.push(format!("{label}: `{}` is an immediate of the IR instruction (a static function pointer)", norm(&v)));
+                        continue;
+                    }
+                    return Err(format!("{label}: the origin of the address `{}` baked into the code is not recognised", norm(&v)));
+                }
+                for f in fields {
+                    let h = holder_of(&f)?;
+                    notes.push(format!("{label}: address from ModuleBuilder.{f} baked into the code ↦ Holder.{h}"));
+                    out.push(h);
+                }
+            }
+        }
+    }
+    if n_sites < 4 {
+        return Err(format!("only {n_sites} data/address sites found in FuncGen: the code generator changed shape"));
+    }
+    Ok(out)
 }
 
 fn lifetime(repo: &Path) -> Result<String, String> {
@@ -273,6 +689,14 @@ fn lifetime(repo: &Path) -> Result<String, String> {
         sites.push(site);
     }
 
+    // ---- 5. what the closure made by into_func owns
+    let handle_has_drop = everything.out.iter().any(|(imp, name, _)| name == "drop" && imp.split('<').next() == Some("Drop for TypedFunc"));
+    let closure_keeps = shared_is_arc
+        && into_func_keeps_arc(repo, &cg, tf_field.as_deref(), handle_has_drop, &mut notes)?;
+
+    // ---- 6. out-of-line data the code refers to by address
+    let holders = data_holders(&cg, &all, &mut notes)?;
+
     let b = |x: bool| if x { "true" } else { "false" };
     let mut out = String::new();
     out.push_str("/- GENERATED by /verif/extract (target `lifetime`) from src/codegen/mod.rs, src/pipeline.rs, src/runtime/func.rs — do not edit.\n");
@@ -281,12 +705,14 @@ fn lifetime(repo: &Path) -> Result<String, String> {
     }
     out.push_str("-/\nimport RotoV.Model.Lifetime\nnamespace RotoV.Gen.Lifetime\nopen RotoV.Lifetime\n\n");
     out.push_str(&format!(
-        "def facts : Facts :=\n  {{ moduleFields := [{}]\n    handleHoldsArc := {}\n    constsCloned := {}\n    fnsCloned := {}\n    freeSites := [{}] }}\n",
+        "def facts : Facts :=\n  {{ moduleFields := [{}]\n    handleHoldsArc := {}\n    constsCloned := {}\n    fnsCloned := {}\n    freeSites := [{}]\n    closureKeepsArc := {}\n    dataHolders := [{}] }}\n",
         lean_fields.iter().map(|f| format!(".{f}")).collect::<Vec<_>>().join(", "),
         b(handle_holds),
         b(consts_cloned),
         b(fns_cloned),
         sites.iter().map(|f| format!(".{f}")).collect::<Vec<_>>().join(", "),
+        b(closure_keeps),
+        holders.iter().map(|f| format!(".{f}")).collect::<Vec<_>>().join(", "),
     ));
     out.push_str("\nend RotoV.Gen.Lifetime\n");
     Ok(out)
